@@ -210,6 +210,36 @@ let run_lftrace (w: string list) : unit =
   List.iter print_file (xm_files !s);
   print_string "end\n"; flush stdout
 
+(* several sinks in one process: the system is the PRODUCT of the sinks' models (C16_sinks_independent, justified
+   by the regenerated fact Sinks_share_no_state); the runner echoes the operations, the per-sink file contents are
+   checked by the oracle against each sink's own records *)
+let run_multi (w: string list) : unit =
+  let id = List.nth w 1 in
+  let kinds = hdr_get w "sinks" "LL" in
+  let k_n = String.length kinds in
+  let seqs = Array.make (max k_n 1) 0 in
+  let alive = Array.make (max k_n 1) true in
+  Printf.printf "case %s multi\n" id; flush stdout;
+  let fin = ref false in
+  while not !fin do
+    let line = input_line stdin in
+    (match split_ws line with
+     | [] -> ()
+     | ["end"] -> fin := true
+     | ["W"; k; n; _] when int_of_string k >= 0 && int_of_string k < k_n && alive.(int_of_string k) ->
+         let k = int_of_string k and n = int_of_string n in
+         Printf.printf "W %d from=%d n=%d\n" k seqs.(k) n; seqs.(k) <- seqs.(k) + n
+     | ["F"; k] when int_of_string k >= 0 && int_of_string k < k_n && alive.(int_of_string k) && kinds.[int_of_string k] <> 'A' ->
+         Printf.printf "F %s\n" k
+     | ["P"; ms] -> Printf.printf "P %s\n" ms
+     | ["T"; sec] -> Printf.printf "T %s\n" sec
+     | ["X"; k] when int_of_string k >= 0 && int_of_string k < k_n && alive.(int_of_string k) ->
+         alive.(int_of_string k) <- false; Printf.printf "X %s\n" k
+     | _ -> Printf.printf "BADOP %s\n" line);
+    flush stdout
+  done;
+  print_string "end\n"; flush stdout
+
 let run_free (w: string list) : unit =
   let id = List.nth w 1 in
   let threads = int_of_string (hdr_get w "threads" "1") in
@@ -233,6 +263,7 @@ let () =
     | "case" :: id :: "free" :: _ as w -> run_free w
     | "case" :: id :: "lfree" :: _ as w -> run_free w
     | "case" :: id :: "lftrace" :: _ as w -> run_lftrace w
+    | "case" :: id :: "multi" :: _ as w -> run_multi w
     | "case" :: id :: _ -> Printf.printf "case %s BADKIND\nend\n" id; flush stdout
     | _ -> ()
   done with End_of_file -> ())
